@@ -1,11 +1,12 @@
 (* RBSource.v — the tiny rules of src/Tree.c that RBTree.v hard-codes, re-extracted from the working tree
    into Generated.v by tools/genx_tree.py on every run, are the ones the model uses:
    searches and Tree_Set go LEFT when cmp(stored key, key) < 0 (`Lt` in `lookup`/`descend`), a new node is
-   red (`set_root`), iteration starts at the leftmost node (`iter_init`/`leftmost`), the node copied by
-   Tree_Rem is the maximum of the left subtree (`max_node`).  A changed source rule breaks this lemma. *)
+   red (`set_root`), iteration starts at the leftmost node (`iter_init`/`leftmost`), Tree_Maximum / Tree_Minimum walk
+   right / left (`max_node` / `min_node`); the donor rule of Tree_Rem is NOT fixed here: it is the parameter
+   `use_succ` of the model, instantiated with Generated.tree_rem_use_succ by the driver.  A changed source rule breaks this lemma. *)
 From CelloV Require Import Generated.
 
 Lemma source_rules_as_modelled :
   tree_search_left_when = Lt /\ tree_set_left_when = Lt /\ tree_new_node_red = true /\
-  tree_iter_from_left = true /\ tree_pred_is_left_max = true.
+  tree_iter_from_left = true /\ tree_donor_helpers_ok = true.
 Proof. repeat split; reflexivity. Qed.
